@@ -171,6 +171,12 @@ func c04table(args []string) error {
 			if s := h.Sum(nil); string(s) != string(got) {
 				got = append([]byte("STREAM!="), s...)
 			}
+			// and in a single Write
+			h1 := sm3.New()
+			h1.Write(m)
+			if s := h1.Sum(nil); string(s) != string(got) {
+				got = append([]byte("WRITE!="), s...)
+			}
 		case "hmac":
 			mac := hmac.New(sm3.New, c04Key(gi("klen")))
 			mac.Write(c04Msg(0, 0, gi("mlen")))
